@@ -66,35 +66,75 @@ func rulesC19(r *Run) {
 		}
 		info := fn.Pkg.TypesInfo
 		short := fn.Obj.Name()
-		// subject object: the parameter of the workflow type
-		var subj types.Object
-		for _, f := range fn.Decl.Type.Params.List {
-			for _, nm := range f.Names {
-				if ShortType(info.ObjectOf(nm).Type()) == s.typ {
-					subj = info.ObjectOf(nm)
-				}
-			}
-		}
-		if subj == nil {
-			r.Unresolved("R1", s.fnKey+" subject parameter")
-			continue
-		}
-		// the walk is the function body, or for Plan the literal it returns
+		// the walk is the function body; for Plan it is the iterator Plan returns: a literal, or a method value
+		// (`return planWalker{plan: p}.walk`) whose body then is the walk
 		var fl *Flow
 		var paths []Path
 		var okp bool
+		walkFn := fn
+		var yieldFn *Func // the function ruleYieldDiscipline examines
 		if short == "Plan" {
 			var lit *ast.FuncLit
 			for _, l := range AllLits(fn.Decl.Body) {
 				lit = l
 			}
-			if lit == nil {
-				r.Unresolved("R1", s.fnKey+" returned literal")
-				continue
+			if lit != nil {
+				fl, paths, okp = r.litPaths("R1", lit)
+			} else {
+				var m *Func
+				ast.Inspect(fn.Decl.Body, func(n ast.Node) bool {
+					if rs, ok := n.(*ast.ReturnStmt); ok && len(rs.Results) == 1 {
+						if sel, ok := ast.Unparen(rs.Results[0]).(*ast.SelectorExpr); ok {
+							if sl := info.Selections[sel]; sl != nil && sl.Kind() == types.MethodVal {
+								m = r.P.DeclOf(sl.Obj())
+							}
+						}
+					}
+					return true
+				})
+				if m == nil || m.Decl.Body == nil {
+					r.Unresolved("R1", s.fnKey+" returned literal")
+					continue
+				}
+				walkFn, yieldFn = m, m
+				fl, paths, okp = r.flowPaths("R1", m)
 			}
-			fl, paths, okp = r.litPaths("R1", lit)
 		} else {
 			fl, paths, okp = r.flowPaths("R1", fn)
+		}
+		// the subject: the parameter of the workflow type, or (for a walker method) the receiver's field of that type
+		var isSubj func(ast.Expr) bool
+		for _, f := range walkFn.Decl.Type.Params.List {
+			for _, nm := range f.Names {
+				if o := info.ObjectOf(nm); ShortType(o.Type()) == s.typ {
+					isSubj = func(e ast.Expr) bool { return ObjOf(info, e) == o }
+				}
+			}
+		}
+		if isSubj == nil && walkFn == fn && short == "Plan" {
+			// the literal captures Plan's parameter
+			for _, f := range fn.Decl.Type.Params.List {
+				for _, nm := range f.Names {
+					if o := info.ObjectOf(nm); ShortType(o.Type()) == s.typ {
+						isSubj = func(e ast.Expr) bool { return ObjOf(info, e) == o }
+					}
+				}
+			}
+		}
+		if isSubj == nil && walkFn.Decl.Recv != nil && len(walkFn.Decl.Recv.List) == 1 && len(walkFn.Decl.Recv.List[0].Names) == 1 {
+			recv := info.ObjectOf(walkFn.Decl.Recv.List[0].Names[0])
+			isSubj = func(e ast.Expr) bool {
+				sel, ok := ast.Unparen(e).(*ast.SelectorExpr)
+				if !ok || ObjOf(info, sel.X) != recv {
+					return false
+				}
+				tv, ok := info.Types[sel]
+				return ok && ShortType(tv.Type) == s.typ
+			}
+		}
+		if isSubj == nil {
+			r.Unresolved("R1", s.fnKey+" subject parameter")
+			continue
 		}
 		if !okp {
 			continue
@@ -106,7 +146,7 @@ func rulesC19(r *Run) {
 			isList[st.Field(k).Name()] = l
 		}
 		subjNil := func(e ast.Expr) (string, bool, bool) {
-			if x, op, ok := IsNilCompare(info, e); ok && ObjOf(info, x) == subj {
+			if x, op, ok := IsNilCompare(info, e); ok && isSubj(x) {
 				return "subject-nil", op == token.NEQ, true
 			}
 			return "", false, false
@@ -119,7 +159,7 @@ func rulesC19(r *Run) {
 			if p.Exit != ExitReturn {
 				continue
 			}
-			visits, appendIdx, chainObj := walkVisitsOnPath(fl, p, subj, s.typ, s.want, visitors)
+			visits, appendIdx, chainObj := walkVisitsOnPath(fl, p, isSubj, s.typ, s.want, visitors)
 			r.Evals += len(visits)
 			if len(visits) > len(best) {
 				best = visits
@@ -202,6 +242,9 @@ func rulesC19(r *Run) {
 
 		// R3 early stop
 		nSites += ruleYieldDiscipline(r, "R3", fn, visitors)
+		if yieldFn != nil {
+			nSites += ruleYieldDiscipline(r, "R3", yieldFn, visitors)
+		}
 	}
 	r.Expect("R1", 8)
 	r.Expect("R2", 4)
@@ -922,7 +965,7 @@ func loopsOnPath(p *Path, idx int) []*ast.RangeStmt {
 // walkVisitsOnPath extracts, in execution order, the visits a walker performs on one path: calls of
 // the yield function and of the other walkers, wherever they are written (in place or in a helper
 // whose body the path engine spliced in; the inside of an inlined walker is that walker's business).
-func walkVisitsOnPath(fl *Flow, p *Path, subj types.Object, typ string, want []string, visitors map[string]bool) (visits []walkVisit, appendIdx int, chainObj types.Object) {
+func walkVisitsOnPath(fl *Flow, p *Path, isSubj func(ast.Expr) bool, typ string, want []string, visitors map[string]bool) (visits []walkVisit, appendIdx int, chainObj types.Object) {
 	info := fl.Info
 	appendIdx = -1
 	var skip *ast.CallExpr
@@ -930,12 +973,12 @@ func walkVisitsOnPath(fl *Flow, p *Path, subj types.Object, typ string, want []s
 		if t == nil {
 			return "?", false
 		}
-		if ObjOf(info, t) == subj {
+		if isSubj(t) {
 			return "", false
 		}
 		for _, w := range want {
 			if w != "" {
-				if base, m := FieldPath(info, t, typ, w); m && ObjOf(info, base) == subj {
+				if base, m := FieldPath(info, t, typ, w); m && isSubj(base) {
 					return w, len(loopsOnPath(p, i)) > 0
 				}
 			}
@@ -947,7 +990,7 @@ func walkVisitsOnPath(fl *Flow, p *Path, subj types.Object, typ string, want []s
 			}
 			for _, w := range want {
 				if w != "" {
-					if base, m := FieldPath(info, rs.X, typ, w); m && ObjOf(info, base) == subj {
+					if base, m := FieldPath(info, rs.X, typ, w); m && isSubj(base) {
 						return w, true
 					}
 				}
@@ -971,11 +1014,11 @@ func walkVisitsOnPath(fl *Flow, p *Path, subj types.Object, typ string, want []s
 				}
 				switch rhs := ast.Unparen(e.Rhs[0]).(type) {
 				case *ast.CallExpr:
-					if fid, ok := rhs.Fun.(*ast.Ident); ok && fid.Name == "append" && len(rhs.Args) == 2 && ObjOf(info, rhs.Args[0]) == lo && ObjOf(info, rhs.Args[1]) == subj {
+					if fid, ok := rhs.Fun.(*ast.Ident); ok && fid.Name == "append" && len(rhs.Args) == 2 && ObjOf(info, rhs.Args[0]) == lo && isSubj(rhs.Args[1]) {
 						appendIdx, chainObj = i, lo
 					}
 				case *ast.CompositeLit:
-					if len(rhs.Elts) == 1 && ObjOf(info, rhs.Elts[0]) == subj {
+					if len(rhs.Elts) == 1 && isSubj(rhs.Elts[0]) {
 						appendIdx, chainObj = i, lo
 					}
 				}
